@@ -443,3 +443,113 @@ def resume_seeding(depth=2):
                     todo.append((last, d + 1))
     found = sorted(set(found))
     return "[" + "; ".join(f[4] for f in found) + "]", [f[:4] for f in found]
+
+
+# ---------------------------------------------------------------------------------------------
+# what the proposal's draw / populate path reads, what __getstate__ drops, what resume restores
+# ---------------------------------------------------------------------------------------------
+def _method_table():
+    """name -> FunctionDef for FlowProposal, falling back to its bases RejectionProposal, AnalyticProposal, Proposal"""
+    table = {}
+    for rel, cls in (("nessai/proposal/base.py", "Proposal"), ("nessai/proposal/analytic.py", "AnalyticProposal"),
+                     ("nessai/proposal/rejection.py", "RejectionProposal"), ("nessai/proposal/flowproposal.py", "FlowProposal")):
+        try:
+            mod, _ = parse(rel)
+            c = find_class(mod, cls)
+        except (Declined, FileNotFoundError):
+            continue
+        for n in c.body:
+            if isinstance(n, (ast.FunctionDef, ast.AsyncFunctionDef)):
+                table.setdefault(n.name, []).insert(0, n)   # most derived first
+    if "populate" not in table or "__getstate__" not in table:
+        raise Declined("FlowProposal.populate / __getstate__ not found")
+    return table
+
+
+def _closure(table, roots, depth=3):
+    seen, todo, nodes = set(), [(r, 0) for r in roots], []
+    while todo:
+        name, d = todo.pop()
+        if name in seen or name not in table:
+            continue
+        seen.add(name)
+        for fn in table[name]:
+            nodes.append(fn)
+            if d >= depth:
+                continue
+            for c in ast.walk(fn):
+                if isinstance(c, ast.Call) and isinstance(c.func, ast.Attribute):
+                    base = dotted(c.func.value) or unparse(c.func.value)
+                    if base in ("self", "super()"):
+                        todo.append((c.func.attr, d + 1))
+    return nodes
+
+
+def _attrs(nodes, ctx):
+    out = set()
+    for fn in nodes:
+        for n in ast.walk(fn):
+            if isinstance(n, ast.Attribute) and isinstance(n.value, ast.Name) and n.value.id == "self" \
+                    and isinstance(n.ctx, ctx):
+                out.add(n.attr)
+            if ctx is ast.Store and isinstance(n, ast.AugAssign) and isinstance(n.target, ast.Attribute) \
+                    and isinstance(n.target.value, ast.Name) and n.target.value.id == "self":
+                out.add(n.target.attr)
+    return out
+
+
+def proposal_fields():
+    """-> dict(dropped, read, restored, missing, flags, coq=(dropped, read, restored) as Coq string lists)
+    dropped  = attributes FlowProposal.__getstate__ (and its bases) set to None or delete from the state;
+    read     = attributes the draw / populate path reads (three levels of self-method calls);
+    restored = attributes assigned on the resume path (resume -> initialise ...) or re-derived inside the draw /
+               populate path itself (names compared without leading underscores: a property setter restores `_x`);
+    missing  = dropped, read and not restored;
+    flags    = boolean constructor options (default False) that guard reads of attributes only train() sets -
+               the configurations under which a signal inside populate must be injected."""
+    table = _method_table()
+    dropped = set()
+    for fn in table["__getstate__"]:
+        for n in ast.walk(fn):
+            tgt = None
+            if isinstance(n, ast.Assign) and len(n.targets) == 1 and isinstance(n.value, ast.Constant) and n.value.value is None:
+                tgt = n.targets[0]
+            elif isinstance(n, ast.Delete) and len(n.targets) == 1:
+                tgt = n.targets[0]
+            if isinstance(tgt, ast.Subscript) and dotted(tgt.value) in ("state", "d") \
+                    and isinstance(tgt.slice, ast.Constant) and isinstance(tgt.slice.value, str):
+                dropped.add(tgt.slice.value)
+    path = _closure(table, ["draw", "populate"])
+    read = _attrs(path, ast.Load)
+    rederived = _attrs(path, ast.Store)
+    restored = _attrs(_closure(table, ["resume", "__setstate__"]), ast.Store) | rederived
+    norm = lambda a: a.lstrip("_")  # noqa
+    restored_n = {norm(a) for a in restored}
+    missing = sorted(a for a in dropped if a in read and norm(a) not in restored_n)
+    # options that guard reads of what only train() sets
+    train_set = _attrs(table["train"][:1], ast.Store) - _attrs(_closure(table, ["populate", "draw", "resume"]), ast.Store) \
+        if "train" in table else set()
+    init = [f for f in table.get("__init__", []) if True][0]
+    defaults = dict(zip([a.arg for a in init.args.args][len(init.args.args) - len(init.args.defaults):], init.args.defaults))
+    bool_false = {k for k, v in defaults.items() if isinstance(v, ast.Constant) and v.value is False}
+    flags = set()
+    for fn in path:
+        parents = {}
+        for node in ast.walk(fn):
+            for ch in ast.iter_child_nodes(node):
+                parents[ch] = node
+        for n in ast.walk(fn):
+            if isinstance(n, ast.Attribute) and isinstance(n.value, ast.Name) and n.value.id == "self" \
+                    and isinstance(n.ctx, ast.Load) and n.attr in train_set:
+                p = n
+                while p in parents:
+                    child, p = p, parents[p]
+                    # only an `if self.<flag>:` whose BODY holds the read (not its else branch) enables it
+                    if isinstance(p, ast.If) and any(child is b or child in ast.walk(b) for b in p.body):
+                        for t in ast.walk(p.test):
+                            if isinstance(t, ast.Attribute) and dotted(t.value) == "self" and t.attr in bool_false:
+                                flags.add(t.attr)
+    q = lambda xs: "[" + "; ".join('"' + x + '"%string' for x in sorted(xs)) + "]"  # noqa
+    return {"dropped": sorted(dropped), "read": sorted(read), "restored": sorted(restored), "missing": missing,
+            "flags": sorted(flags), "train_set": sorted(train_set),
+            "coq": (q(dropped), q(read & (dropped | train_set)), q({a for a in dropped if norm(a) in restored_n}))}
